@@ -29,6 +29,7 @@ MODULES = {
     'C06': 'harness.c06',
     'C07': 'harness.c07',
     'C08': 'harness.c08',
+    'C09': 'harness.c09',
     'C12': 'harness.c12',
     'C13': 'harness.c13',
 }
@@ -136,7 +137,14 @@ def main(argv=None):
             seen_case.add(case)
             opts['profile'] = True
         jobs.append((case, modname, fname, cfg, opts))
-    results = H.run_all(jobs, a.jobs or None)
+    import shutil
+    import tempfile
+    tmp = tempfile.mkdtemp(prefix='chiverif_')
+    os.environ['CHIVERIF_TMP'] = tmp
+    try:
+        results = H.run_all(jobs, a.jobs or None)
+    finally:
+        shutil.rmtree(tmp, ignore_errors=True)
     return finish(pid, a, mod, jobs, results, seed, t0)
 
 
